@@ -88,22 +88,35 @@ def ValidSelKeys (s : Text) : Prop := s.length = 10 ∧ ∀ x ∈ s, 0 < x ∧ x
 -- the generated tables describe the documented interface
 
 /-- `EditorOptions` in the source has exactly the fields of the model's `Options`, in order -/
-theorem fields_match : optFields = Options.fieldNames ∧ optFields.length = nFields := by decide
+theorem fields_match : optFields = Options.fieldNames ∧ optFields.length = nFields := by decide +kernel
 
-/-- has_option / get_int / set_int / get_str / set_str list the same (documented) names -/
+/-- has_option / get_int / set_int / get_str / set_str list the same (documented) names
+    (as sets: the order of the `match` arms in the source is irrelevant) -/
 theorem names_agree :
-    getIntArms.map Prod.fst = setIntArms.map Prod.fst ∧
-    getStrNames = setStrNames ∧ setStrNames = DocStrNames ∧
+    (∀ n, n ∈ getIntArms.map Prod.fst ↔ n ∈ setIntArms.map Prod.fst) ∧
+    (∀ n, n ∈ getStrNames ↔ n ∈ setStrNames) ∧ (∀ n, n ∈ setStrNames ↔ n ∈ DocStrNames) ∧
     (∀ n, n ∈ hasOptionNames ↔ n ∈ setIntArms.map Prod.fst ∨ n ∈ setStrNames) ∧
     (∀ n, n ∈ hasOptionNames ↔ n ∈ DocNames) ∧
-    setIntArms.map Prod.fst = DocRange.map Prod.fst ∧
-    (setIntArms.map Prod.fst).Nodup := by
-  refine ⟨by decide, by decide, by decide, ?_, ?_, by decide, by decide⟩
-  · have h1 : ∀ n ∈ hasOptionNames, n ∈ setIntArms.map Prod.fst ∨ n ∈ setStrNames := by decide
-    have h2 : ∀ n ∈ setIntArms.map Prod.fst ++ setStrNames, n ∈ hasOptionNames := by decide
+    (∀ n, n ∈ setIntArms.map Prod.fst ↔ n ∈ DocRange.map Prod.fst) ∧
+    (setIntArms.map Prod.fst).Nodup ∧ (getIntArms.map Prod.fst).Nodup := by
+  refine ⟨?_, ?_, ?_, ?_, ?_, ?_, by decide +kernel, by decide +kernel⟩
+  · have h1 : ∀ n ∈ getIntArms.map Prod.fst, n ∈ setIntArms.map Prod.fst := by decide +kernel
+    have h2 : ∀ n ∈ setIntArms.map Prod.fst, n ∈ getIntArms.map Prod.fst := by decide +kernel
+    exact fun n => ⟨h1 n, h2 n⟩
+  · have h1 : ∀ n ∈ getStrNames, n ∈ setStrNames := by decide +kernel
+    have h2 : ∀ n ∈ setStrNames, n ∈ getStrNames := by decide +kernel
+    exact fun n => ⟨h1 n, h2 n⟩
+  · have h1 : ∀ n ∈ setStrNames, n ∈ DocStrNames := by decide +kernel
+    have h2 : ∀ n ∈ DocStrNames, n ∈ setStrNames := by decide +kernel
+    exact fun n => ⟨h1 n, h2 n⟩
+  · have h1 : ∀ n ∈ hasOptionNames, n ∈ setIntArms.map Prod.fst ∨ n ∈ setStrNames := by decide +kernel
+    have h2 : ∀ n ∈ setIntArms.map Prod.fst ++ setStrNames, n ∈ hasOptionNames := by decide +kernel
     exact fun n => ⟨h1 n, fun h => h2 n (List.mem_append.mpr h)⟩
-  · have h1 : ∀ n ∈ hasOptionNames, n ∈ DocNames := by decide
-    have h2 : ∀ n ∈ DocNames, n ∈ hasOptionNames := by decide
+  · have h1 : ∀ n ∈ hasOptionNames, n ∈ DocNames := by decide +kernel
+    have h2 : ∀ n ∈ DocNames, n ∈ hasOptionNames := by decide +kernel
+    exact fun n => ⟨h1 n, h2 n⟩
+  · have h1 : ∀ n ∈ setIntArms.map Prod.fst, n ∈ DocRange.map Prod.fst := by decide +kernel
+    have h2 : ∀ n ∈ DocRange.map Prod.fst, n ∈ setIntArms.map Prod.fst := by decide +kernel
     exact fun n => ⟨h1 n, h2 n⟩
 
 /-- `has_option` answers 1 exactly on the documented names -/
@@ -118,7 +131,7 @@ theorem has_option_iff (name : String) : hasOption name = 1 ↔ name ∈ DocName
 /-- kernel-evaluated: every documented value of every integer option is accepted and read back
     (context-free row check, see `rowRoundTrip_sound`) -/
 theorem rows_round_trip :
-    (DocRange.all fun (n, lo, hi) => (intRange lo hi).all (rowRoundTrip n)) = true := by decide
+    (DocRange.all fun (n, lo, hi) => (intRange lo hi).all (rowRoundTrip n)) = true := by decide +kernel
 
 /-- **set_get**: an in-range value is accepted and reads back unchanged — every option, value, context -/
 theorem set_get (name : String) (v : Int) (c : Ctx) (h : InRange name v) :
@@ -149,8 +162,7 @@ theorem set_rejects (name : String) (v : Int) (c : Ctx) (h : ¬ InRange name v) 
   cases hs : assoc name setIntArms with
   | none => unfold setIntEffect; rw [hs]; split <;> rfl
   | some r =>
-    have hk : name ∈ DocRange.map Prod.fst := by
-      rw [← names_agree.2.2.2.2.2.1]; exact assoc_key_mem hs
+    have hk : name ∈ DocRange.map Prod.fst := (names_agree.2.2.2.2.2.1 name).mp (assoc_key_mem hs)
     obtain ⟨⟨n, lo, hi⟩, hmem, hn⟩ := List.mem_map.mp hk
     simp only at hn; subst hn
     exact row_rejects n lo hi hmem v fun hv => h ⟨lo, hi, hmem, hv⟩
@@ -173,9 +185,9 @@ theorem unknown_name_rejected (name : String) (v : Int) (c : Ctx) (h : name ∉ 
   · rintro ⟨lo, hi, hmem, _⟩
     exact h (List.mem_map.mpr ⟨_, hmem, rfl⟩)
   · unfold getInt
-    rw [assoc_none (by rw [names_agree.1, names_agree.2.2.2.2.2.1]; exact h)]
+    rw [assoc_none fun hm => h ((names_agree.2.2.2.2.2.1 name).mp ((names_agree.1 name).mp hm))]
 
-theorem frames_ok : framesOK = true := by decide
+theorem frames_ok : framesOK = true := by decide +kernel
 
 /-- **other_options_unchanged**: `set_int name` changes what no other option reports — neither another
     integer option, nor the layout, nor the selection keys -/
@@ -193,13 +205,41 @@ theorem set_get_all (name name' : String) (v : Int) (c : Ctx) (h : InRange name 
   · next he => subst he; exact (set_get _ v c h).2
   · next hne => exact (other_options_unchanged name name' v c hne).1
 
+/-- `get_int` looks at the options only -/
+theorem getInt_congr (name : String) (c c' : Ctx) (h : c'.opts = c.opts) : getInt name c' = getInt name c := by
+  unfold getInt
+  split
+  · rfl
+  · next f g _ => cases g <;> simp [readRule, h]
+
+theorem init_in_range : (DocRange.all fun (n, lo, hi) => decide (lo ≤ getInt n init ∧ getInt n init ≤ hi)) = true := by
+  decide
+
+/-- what every getter reports is a documented value — an invariant of all histories.  (In particular the
+    model's `illTyped` sentinel is never returned.) -/
+def GettersInRange (c : Ctx) : Prop := ∀ name ∈ DocRange.map Prod.fst, InRange name (getInt name c)
+
+theorem gettersInRange_setInt (name : String) (v : Int) (c : Ctx) (h : GettersInRange c) :
+    GettersInRange (setInt name v c).1 := by
+  by_cases hr : InRange name v
+  · intro name' hn
+    rw [set_get_all name name' v c hr]
+    split
+    · next he => subst he; exact hr
+    · exact h name' hn
+  · rw [set_rejects name v c hr]; exact h
+
+theorem gettersInRange_of_opts (c c' : Ctx) (ho : c'.opts = c.opts) (h : GettersInRange c) : GettersInRange c' :=
+  fun name hn => by rw [getInt_congr name c c' ho]; exact h name hn
+
 -- =============================================================================================
 -- legacy setters / getters
 
-/-- the forwarders found in the source are exactly the documented pairs -/
+/-- the forwarders found in the source are exactly the documented pairs (each setter and its getter go to the
+    same, documented, option; there are no other forwarders) -/
 theorem legacy_tables :
-    legacySetters = LegacySpec.map (fun t => (t.1, t.2.2)) ∧
-    legacyGetters = LegacySpec.map (fun t => (t.2.1, t.2.2)) := by decide
+    (LegacySpec.all fun t => assoc t.1 legacySetters == some t.2.2 && assoc t.2.1 legacyGetters == some t.2.2) = true ∧
+    legacySetters.length = LegacySpec.length ∧ legacyGetters.length = LegacySpec.length := by decide +kernel
 
 /-- **legacy_equiv**: each legacy setter is `set_int` on the option it stands for (return code dropped),
     each legacy getter is `get_int` on the same option — all values, all contexts -/
@@ -223,11 +263,11 @@ theorem legacy_set_get (s g name : String) (hmem : (s, g, name) ∈ LegacySpec) 
 /-- names, numbers and `Display` of `KeyboardLayoutCompat` are the documented ones and are mutually inverse -/
 theorem kb_name_tables :
     kbDisplay = DocKbNames ∧ kbVariants.length = nKb ∧
-    kbTryFrom = (List.range nKb).map (fun i => (i, i)) ∧
+    (allLt nKb fun k => assoc k kbTryFrom == some k) = true ∧ kbTryFrom.length = nKb ∧
     (allLt nKb fun k => assoc (kbDisplayText.getD k []) kbFromStrText == some k) = true ∧
     kbFromStrText.map Prod.fst = kbFromStr.map (fun p => p.1.toList.map Char.toNat) ∧
     kbDisplayText = kbDisplay.map (fun s => s.toList.map Char.toNat) ∧
-    kbDefault = 0 ∧ kbStr2NumDefault = 0 ∧ kbTypeTruncates = false := by decide
+    kbDefault = 0 ∧ kbStr2NumDefault = 0 ∧ kbTypeTruncates = false := by decide +kernel
 
 /-- **kb_tables_agree**: the dispatch table inside `chewing_config_set_str("chewing.keyboard_type")` and the
     one inside `chewing_set_KBType` map every layout to the same (keyboard, syllable editor) -/
@@ -252,7 +292,7 @@ theorem kb_select_equiv (kb : Nat) (hkb : kb < nKb) (c : Ctx) :
   have h1 : kbOfNum (kb : Int) = kb := by
     have := allLt_spec kbOfNum_known kb hkb; simpa using this
   have h2 : assoc (kbDisplayText.getD kb []) kbFromStrText = some kb := by
-    have := allLt_spec kb_name_tables.2.2.2.1 kb hkb; simpa using this
+    have := allLt_spec kb_name_tables.2.2.2.2.1 kb hkb; simpa using this
   rw [setStr_kb c h2]
   refine ⟨?_, ?_, rfl⟩
   · show ({ c with kbCompat := kbOfNum kb, keyboard := (pairByNum (kbOfNum kb)).1, syl := (pairByNum (kbOfNum kb)).2 } : Ctx) = _
@@ -368,7 +408,7 @@ theorem kb_current_is_effective (c : Ctx) (h : Reachable c) :
     | cons op ops ih => exact fun c hc => ih _ (kbInv_step c op hc)
   obtain ⟨h1, h2⟩ := this ops init hinit
   refine ⟨h1, h2, rfl, ?_⟩
-  have := allLt_spec kb_name_tables.2.2.2.1 _ h1
+  have := allLt_spec kb_name_tables.2.2.2.2.1 _ h1
   unfold kbStr2Num getKBString
   simp only [beq_iff_eq] at this
   unfold run
@@ -460,8 +500,8 @@ theorem str_unknown_rejected (name : String) (value : Text) (c : Ctx) :
     (assoc value kbFromStrText = none → setStr kbTypeName value c = (c, ERROR)) := by
   constructor
   · intro h
-    have hs : name ∉ setStrNames := by rw [names_agree.2.2.1]; exact h
-    have hg : name ∉ getStrNames := by rw [names_agree.2.1]; exact hs
+    have hs : name ∉ setStrNames := fun hm => h ((names_agree.2.2.1 name).mp hm)
+    have hg : name ∉ getStrNames := fun hm => hs ((names_agree.2.1 name).mp hm)
     exact ⟨by unfold setStr; rw [if_pos hs], by unfold getStr; rw [if_pos hg]⟩
   · intro h
     have h1 : ¬ (kbTypeName ∉ setStrNames) := by decide
@@ -552,6 +592,63 @@ theorem getStr_never_panics (name : String) (c : Ctx) : (getStr name c).isOk = t
   split
   · rfl
   · simp only [this]; split <;> (split <;> simp [Outcome.isOk])
+
+-- =============================================================================================
+-- invariant: getters always report documented values
+
+theorem legacySet_eq (fn : String) (v : Int) (c : Ctx) : legacySet fn v c = c ∨ ∃ name, legacySet fn v c = (setInt name v c).1 := by
+  unfold legacySet
+  split
+  · next name _ => exact Or.inr ⟨name, rfl⟩
+  · exact Or.inl rfl
+
+theorem gettersInRange_step (c : Ctx) (op : Op) (h : GettersInRange c) : GettersInRange (step c op) := by
+  cases op with
+  | setInt name v => exact gettersInRange_setInt name v c h
+  | legacySet fn v =>
+    show GettersInRange (legacySet fn v c)
+    rcases legacySet_eq fn v c with he | ⟨name, he⟩ <;> rw [he]
+    · exact h
+    · exact gettersInRange_setInt name v c h
+  | setKBType n => exact gettersInRange_of_opts c _ rfl h
+  | setSelKey keys len => exact gettersInRange_of_opts c _ (str_ops_frame "" [] 0 keys len c).2.2.1 h
+  | setStr name value => exact gettersInRange_of_opts c _ (str_ops_frame name value 0 [] 0 c).1 h
+  | configure field selKey =>
+    show GettersInRange (configure field selKey c)
+    unfold configure
+    have : ∀ (l : List (String × String)) (c : Ctx), GettersInRange c →
+        GettersInRange (l.foldl (fun c (call : String × String) =>
+          if call.1 = "chewing_set_selKey" then setSelKey selKey maxSelKey c else legacySet call.1 (field call.2) c) c) := by
+      intro l
+      induction l with
+      | nil => intro c hc; exact hc
+      | cons x xs ih =>
+        intro c hc
+        apply ih
+        show GettersInRange (if x.1 = "chewing_set_selKey" then _ else _)
+        split
+        · exact gettersInRange_of_opts c _ (str_ops_frame "" [] 0 selKey maxSelKey c).2.2.1 hc
+        · rcases legacySet_eq x.1 (field x.2) c with he | ⟨name, he⟩ <;> rw [he]
+          · exact hc
+          · exact gettersInRange_setInt name _ c hc
+    exact this _ c h
+
+/-- **getters_in_range**: after ANY history of configuration calls (valid or not, through any entry point)
+    every integer option reports a value of its documented range -/
+theorem getters_in_range (c : Ctx) (h : Reachable c) : GettersInRange c := by
+  obtain ⟨ops, rfl⟩ := h
+  have hinit : GettersInRange init := by
+    intro name hn
+    obtain ⟨⟨n, lo, hi⟩, hmem, rfl⟩ := List.mem_map.mp hn
+    have := List.all_eq_true.mp init_in_range _ hmem
+    simp only [decide_eq_true_eq] at this
+    exact ⟨lo, hi, hmem, this.1, this.2⟩
+  have : ∀ (ops : List Op) (c : Ctx), GettersInRange c → GettersInRange (ops.foldl step c) := by
+    intro ops
+    induction ops with
+    | nil => exact fun c hc => hc
+    | cons op ops ih => exact fun c hc => ih _ (gettersInRange_step c op hc)
+  exact this ops init hinit
 
 -- =============================================================================================
 -- non-vacuity: the hypotheses above are satisfiable, and the model is not trivial
